@@ -157,4 +157,12 @@ def recursive_programs():
                 'fn main() { println(walk(2)); println(walk(1)); try { throw("final"); } catch e { println("main caught", e.message); } }\n'))
     out.append(("rec-fatal-base", 'fn down(n: int) -> int { if n == 0 { let l = [1]; return l[5]; } try { down(n - 1) } catch e { println("never", n); 0 } }\n'
                 'fn main() { println("start"); println(down(3)); println("not reached"); }\n'))
+    # a callee without locals of its own whose try block holds a loop / a nested try and whose handler fires: the caller's
+    # locals (its first one in particular) are intact afterwards
+    out.append(("callee-frames", 'fn find(l: [int], want: int) -> int { try { for x in l { if x == want { throw("found"); } } 0 } catch e { 1 } }\n'
+                'fn deeper(c: str) { throw("hit " + c); }\n'
+                'fn scan(s: str) -> int { try { for c in s { match c { "x" => { deeper(c); }, _ => {} } } 0 } catch e { 2 } }\n'
+                'fn nested() -> int { try { try { throw("inner"); } catch e { throw("outer"); } 0 } catch f { 3 } }\n'
+                'fn main() { let sum = 100; let k = 5; println(find([1, 2, 3], 2)); println("sum", sum, k); println(scan("axb")); println("sum", sum, k); println(nested()); println("sum", sum, k); '
+                'println(find([1], 7), scan("ab")); println("sum", sum, k); }\n'))
     return out
